@@ -24,6 +24,16 @@ pub fn run() -> Result<(), String> {
             return Err("keccak block boundary".into());
         }
     }
+    if cfg!(miri) {
+        // the interpreter runs only the non-cryptographic Toy scheme; the crypto vectors are checked by
+        // every native run
+        let pk = sig::toy_pub(&[7u8; 32]);
+        let sg = sig::toy_sig(&pk, b"content");
+        if !sig::toy_verify(&pk, b"content", &sg) || sig::toy_verify(&pk, b"contenu", &sg) {
+            return Err("toy scheme".into());
+        }
+        return Ok(());
+    }
     let bytes = b64::decode_strict(&EIP778_TEXT[4..]).ok_or("eip778 text does not decode")?;
     match ref_decode(&bytes, KT::K256) {
         RefOut::Accept(f) => {
